@@ -59,6 +59,7 @@ class Unit:
         self.funcs = []
         self.props = []
         self.trusted = []   # (kind, text) from the cheating scan
+        self.frames = []    # frame conditions checked syntactically on the owning file
         self.rewrites = []  # log of D-rule applications
         self.template = ''
 
@@ -525,6 +526,43 @@ def assemble(unit_name, repo=None):
         cmd, rest = m.group(1), m.group(2).strip()
         if cmd == 'props':
             u.props = [p.strip() for p in rest.split(',') if p.strip()]
+            i += 1
+        elif cmd == 'frame':
+            # frame condition: the listed private fields of a type are only written (field assignment or
+            # struct literal) inside the allowed items of the file that owns the type
+            pos, kv = _kv(_split_args(rest))
+            relpath = pos[0]
+            from .extract import find_item, iter_items, is_cfg_test
+            path = os.path.join(repo, relpath)
+            try:
+                fsrc = open(path, encoding='utf-8').read()
+            except OSError as e:
+                raise ExtractError('frame: cannot read %s' % relpath)
+            fm = lex.mask(fsrc)
+            allowed = []
+            for sel in kv.get('allow', '').split(';'):
+                if sel:
+                    itx = find_item(fsrc, fm, sel)
+                    allowed.append((itx.attr_start, itx.end))
+            # the type definition itself and test modules are exempt
+            for itx in iter_items(fsrc, fm, 0, len(fsrc)):
+                if (itx.kind == 'struct' and itx.name == kv['type']) or is_cfg_test(itx):
+                    allowed.append((itx.attr_start, itx.end))
+            hits = []
+            pats = [(r'\.\s*%s\s*(?:=(?!=)|\+=|-=)' % re.escape(f), 'assignment to field `%s`' % f) for f in kv.get('fields', '').split(',') if f]
+            pats.append((r'(?<![A-Za-z0-9_:])%s\s*\{(?=\s*(?:[A-Za-z_][A-Za-z0-9_]*\s*[:,}]|\.\.))' % re.escape(kv['type']), 'struct literal / pattern `%s { .. }`' % kv['type']))
+            for rx, what in pats:
+                for mm in re.finditer(rx, fm):
+                    if any(a <= mm.start() < b for a, b in allowed):
+                        continue
+                    # `impl Type {`, `for Type {` are not literals
+                    before = fm[max(0, mm.start() - 12):mm.start()]
+                    if re.search(r'(impl|for)\s+$', before) or re.search(r'(impl|for)(<[^>]*>)?\s+$', before):
+                        continue
+                    hits.append({'what': what, 'file': relpath, 'line': lex.line_of(fsrc, mm.start()),
+                                 'text': fsrc[fsrc.rfind('\n', 0, mm.start()) + 1: fsrc.find('\n', mm.start())].strip()[:120]})
+            u.frames.append({'file': relpath, 'type': kv['type'], 'props': [p for p in kv.get('props', '').split(',') if p],
+                             'allow': kv.get('allow', ''), 'hits': hits, 'line': i + 1})
             i += 1
         elif cmd == 'take':
             pos, kv = _kv(_split_args(rest))
